@@ -414,6 +414,8 @@ class Eval:
                 return ('len', a)
             if rv['op'] == 'Not' and isinstance(a, tuple) and a[0] == 'k' and isinstance(a[1], bool):
                 return ('k', not a[1], 'bool')
+            if rv['op'] == 'Neg' and isinstance(a, tuple) and a[0] == 'k' and isinstance(a[1], (int, float)) and not isinstance(a[1], bool):
+                return ('k', -a[1], a[2] if len(a) > 2 else None)
             return ('un', rv['op'], a)
         if k == 'discr':
             return ('discr', self.place(env, rv['p']))
